@@ -379,3 +379,7 @@ pub fn verify_update<H: NodeHasher>(
 pub fn shared_bits(a: &BitSlice<u8, Msb0>, b: &BitSlice<u8, Msb0>) -> usize {
     a.iter().zip(b.iter()).take_while(|(a, b)| a == b).count()
 }
+
+#[cfg(kani)]
+#[path = "/verif/units/kani/core_path_proof.rs"]
+mod verif_kani;
